@@ -3,6 +3,7 @@ package c10
 import (
 	"encoding/json"
 	"fmt"
+	"regexp"
 	"strings"
 
 	. "verifharness/common"
@@ -448,7 +449,9 @@ func (g *gctx) malformV1(doc map[string]any) string {
 	}
 }
 
-func (g *gctx) validators() []Validator {
+// validators draws 4-7 validators; half of them are aimed at a proposer entry of the document (its
+// public key, or a name its pattern matches) so that entries apply, overlap and shadow each other.
+func (g *gctx) validators(selectors []string) []Validator {
 	r := g.r
 	n := r.Range(4, 7)
 	vs := make([]Validator, 0, n)
@@ -464,6 +467,25 @@ func (g *gctx) validators() []Validator {
 			v.Kind, v.Account = "nowallet", accounts[r.Intn(len(accounts))]
 		default:
 			v.Kind = "nil"
+		}
+		if len(selectors) > 0 && r.Chance(1, 2) {
+			sel := selectors[r.Intn(len(selectors))]
+			if strings.HasPrefix(sel, "0x") {
+				if len(sel) == 98 {
+					v.Pubkey = sel
+				}
+			} else if re, err := regexp.Compile(documented(sel)); err == nil {
+				// a name of the universe that the pattern matches, if there is one
+				start := r.Intn(len(wallets) * len(accounts))
+				for j := 0; j < len(wallets)*len(accounts); j++ {
+					k := (start + j) % (len(wallets) * len(accounts))
+					w, a := wallets[k/len(accounts)], accounts[k%len(accounts)]
+					if re.MatchString(w + "/" + a) {
+						v.Kind, v.Wallet, v.Account = "wallet", w, a
+						break
+					}
+				}
+			}
 		}
 		g.col.Count("validator:" + v.Kind)
 		vs = append(vs, v)
@@ -503,7 +525,23 @@ func gen(r *Rand, col *Collector) Input {
 	if err != nil {
 		panic(err)
 	}
-	in := Input{Doc: string(text), FallbackFee: g.addrs[0], FallbackGas: []uint64{30000000, 0, 1, 12345}[r.Intn(4)], Validators: g.validators()}
+	var selectors []string
+	if ps, ok := doc["proposers"].([]any); ok {
+		for _, p := range ps {
+			if m, ok := p.(map[string]any); ok {
+				if sel, ok := m["proposer"].(string); ok && sel != "" {
+					selectors = append(selectors, sel)
+				}
+			}
+		}
+	}
+	if pcs, ok := doc["proposer_config"].(map[string]any); ok {
+		for k := range pcs {
+			selectors = append(selectors, k)
+		}
+		sortStrings(selectors)
+	}
+	in := Input{Doc: string(text), FallbackFee: g.addrs[0], FallbackGas: []uint64{30000000, 0, 1, 12345}[r.Intn(4)], Validators: g.validators(selectors)}
 	if r.Chance(1, 10) {
 		in.FallbackFee = g.fee()
 	}
